@@ -239,6 +239,9 @@ def cases(tier, seed):
         if spec["kind"] == "composed":
             spec["comp"] = classes[(i // 3) % len(classes)]  # every composition class equally often
         out.append(spec)
+    # direct probes of the jitter search (AddJitterOp) on matrices that need more than one attempt
+    for i in range(150 if tier == "quick" else 2000):
+        out.append({"seed": seed * 1000003 + 500000 + i, "kind": "jitter_op"})
     return out
 
 
@@ -275,6 +278,8 @@ def floors(tier):
         "decided:params_roundtrip": 400, "roundtrip:gpr": 35,
         "decided:kernel_textbook": 5000, "decided:kernel_pairwise": 9000, "decided:warp_transform": 100,
         "decided:jitter_structure": 3500, "decided:jitter_sequence": 100, "decided:jitter_minimal": 100,
+        "decided:jitter_op": 120, "jitter_op:failed_attempts_2": 10, "jitter_op:failed_attempts_3": 10,
+        "jitter_op:failed_attempts_ge4": 10,
         "decided:predict_mean": 1500, "decided:predict_variance": 1500, "decided:variance_bounds": 1700,
         "decided:nlml": 650, "decided:joint_covariance": 2000, "decided:joint_offset": 500,
         "decided:incremental_vs_scratch": 350, "decided:fantasy_columns": 800,
@@ -1917,6 +1922,10 @@ def run_case(spec):
     o = Obs()
     sig = {"kind": spec.get("kind")}
     try:
+        if spec.get("kind") == "jitter_op":
+            _run_jitter_op(spec, o, sig)
+            o.set_sig(sig, bool(sig.get("nontrivial")))
+            return o.result()
         if spec.get("kind") == "mcmc":
             _run_mcmc(spec, o, sig)
         elif spec.get("kind") == "history":
@@ -1931,6 +1940,42 @@ def run_case(spec):
     sig["inconclusive"] = sorted(set(o.inconc))
     o.set_sig(sig, nontrivial)
     return o.result()
+
+
+def _run_jitter_op(spec, o, sig):
+    """AddJitterOp on harness-made symmetric matrices that are numerically singular or slightly indefinite
+    (rank-deficient PSD minus delta * I), so that the search needs 0, 1, 2, ... failed attempts: the returned
+    matrix must be x + s * I (off-diagonal untouched, constant diagonal shift) with s the first value of the
+    documented sequence sigsq_init, sigsq_init + j0 * 10^k for which the factorisation works (stage J oracle)."""
+    G = _imports()
+    from syne_tune.optimizer.schedulers.searchers.bayesopt.gpautograd.custom_op import AddJitterOp, flatten_and_concat
+
+    rng = np.random.default_rng(int(spec["seed"]))
+    n = int(rng.integers(2, 13))
+    rank = int(rng.integers(1, n))
+    scale = float(10.0 ** rng.uniform(-1, 3))
+    B = rng.standard_normal((n, rank))
+    x = scale * (B @ B.T) / rank
+    x = 0.5 * (x + x.T)
+    j0 = 1e-9 * max(float(np.mean(np.diag(x))), 1.0)
+    steps = int(rng.integers(0, 6))  # aimed number of failing sequence values
+    delta = 0.0 if steps == 0 else j0 * 10.0 ** (steps - 1) * float(rng.uniform(0.15, 0.85))
+    sig0 = float(rng.choice([0.0, 1e-12, 1e-9, 1e-7]) if rng.random() < 0.7 else 0.3 * delta)
+    x = x - np.eye(n) * (delta + sig0)
+    try:
+        res = np.asarray(AddJitterOp(flatten_and_concat(x, np.array([sig0]))), dtype=np.float64)
+        L = G["spl"].cholesky(res, lower=True)
+    except Exception as e:  # noqa: BLE001
+        o.violate("jitter", f"jitter_op:raised:{type(e).__name__}", {"error": repr(e)[:200], "n": n, "delta": delta, "sigsq_init": sig0})
+        return
+    o.count("decided:jitter_op")
+    D, info = stage_chol(o, "jitter_op", L, x, sig0, True)
+    if D is None:
+        return
+    k = info.get("k", -1) + 1 if info.get("jitter") != "none" else 0
+    o.count("jitter_op:failed_attempts_%s" % (k if k < 4 else "ge4"))
+    sig.update({"n": n, "rank": rank, "failed_attempts": k, "sig0_class": 0 if sig0 == 0 else 1})
+    sig["nontrivial"] = k >= 1
 
 
 def _run(spec, o, sig):
